@@ -48,3 +48,20 @@ let handle (x : t) : (int * string list) option =
   match x with
   | L [I 12; states; reads] -> Some (cmd_lin states reads)
   | _ -> handle x
+
+(* (13 (parent...) victim (done...))   parent -1 = root
+   after closing node `victim` and letting the tree quiesce, exactly its
+   subtree is done (Lifecycle.done_after_close) *)
+let cmd_shutdown parents victim dones =
+  let ps = List.map (fun p -> if p < 0 then None else Some (nat_of_int p)) (d_list d_int parents) in
+  let dones = d_list d_bool dones in
+  let m = done_after_close ps (nat_of_int (d_int victim)) in
+  if m = dones then (List.length dones, [])
+  else (List.length dones, [Printf.sprintf "kind=shutdown victim=%d impl_done=[%s] model_done=[%s]" (d_int victim)
+                              (String.concat "," (List.map string_of_bool dones)) (String.concat "," (List.map string_of_bool m))])
+
+let handle (x : t) : (int * string list) option =
+  match x with
+  | L [I 13; ps; v; ds] -> Some (cmd_shutdown ps v ds)
+  | L [I 13; _] -> Some (0, [])
+  | _ -> handle x
